@@ -82,15 +82,18 @@ C10_KANI_THOROUGH = C10_SCRATCH_THOROUGH + C10_SCRATCH8 + [_h(f"c01::c10_h1_{p}_
 _C03_B = "BOUNDED: checker-supplied exact integer min-sum arithmetic, integer LLRs in [-7,7], fixed matrix, limit <= "
 C03_KANI = [_h("c03::c03_flooding_h1_l1", timeout=2400, mem_gb=6, bound=_C03_B + "1 (2x3)"),
             _h("c03::c03_layered_h1", timeout=2400, mem_gb=6, bound=_C03_B + "2 (2x3)"),
-            _h("c03::c03_layered_h2_l1", timeout=2400, mem_gb=6, bound=_C03_B + "1 (3x4)")]
+            _h("c03::c03_layered_h2_l1", timeout=2400, mem_gb=6, bound=_C03_B + "1 (3x4)"),
+            _h("c03::c03_flooding_h1u_l1", timeout=2400, mem_gb=6, bound=_C03_B + "1 (2x3 with unsorted adjacency lists)"),
+            _h("c03::c03_layered_h1u", timeout=2400, mem_gb=6, bound=_C03_B + "2 (2x3 with unsorted adjacency lists)")]
 C03_KANI_THOROUGH = [_h(f"c03::{h}", timeout=7200, mem_gb=8, bound=_C03_B + "2")
-                     for h in ["c03_flooding_h1", "c03_layered_h1", "c03_layered_h2"]]
+                     for h in ["c03_flooding_h1", "c03_layered_h1", "c03_layered_h2", "c03_flooding_h1u_l1", "c03_layered_h1u"]]
 # c03_flooding_h2 (3x4 matrix, limit 2) did not finish in 50 min: not registered
 C17_KANI = [_h(f"c17::{n}", mem_gb=5, timeout=1500,
                bound="BOUNDED stand-in: one concrete scenario on a fixed 2x3 or 3x2 matrix; never counted as proved")
             for n in ["c17_views_fixed", "c17_set_row_wide_repeat", "c17_set_row_wide_other", "c17_set_row_tall_empty",
                       "c17_set_col_wide_repeat", "c17_set_col_tall_same", "c17_insert_row_wide_mixed", "c17_insert_row_tall_repeat",
-                      "c17_insert_col_wide_new", "c17_insert_col_tall_repeat"]]
+                      "c17_insert_col_wide_new", "c17_insert_col_tall_repeat", "c17_set_col_wide_desc", "c17_insert_row_tall_desc",
+                      "c17_set_row_wide_empty", "c17_set_col_tall_empty", "c17_insert_empty_wide"]]
 C14_ALL = [_h("c14::c14_bpsk_sign_structure"), _h("c14::c14_bpsk_roundtrip"), _h("c14::c14_psk8_constellation"),
            _h("c14::c14_psk8_noiseless_hard_decisions", bound="sigma = 0.1; max* axiomatised (max <= max* <= max + ln 2)"),
            _h("c14::c14_bpsk_scale_points", bound="concrete points: sigma in {0.5, 2}, five samples"),
